@@ -103,8 +103,8 @@ func (w *Writer) Align() {
 
 // EscapeRBSP converts an RBSP into NAL unit payload bytes by inserting an
 // emulation_prevention_three_byte (0x03) wherever the payload would otherwise
-// contain 00 00 00, 00 00 01, 00 00 02 or 00 00 03, and after a final 00 of
-// the RBSP (H.264 7.4.1, H.265 7.4.2). The NAL unit header is NOT part of the
+// contain 00 00 00, 00 00 01, 00 00 02 or 00 00 03, and after a final 00 00
+// of the RBSP (H.264 7.4.1, H.265 7.4.2). The NAL unit header is NOT part of the
 // input; prepend it afterwards (its bytes can never start a 00 00 run because
 // forbidden_zero_bit/nal_unit_type make it non-zero in the cases used here;
 // callers with a zero header byte must escape header+payload themselves).
@@ -123,9 +123,9 @@ func EscapeRBSP(rbsp []byte) []byte {
 			zeros = 0
 		}
 	}
-	if len(rbsp) > 0 && rbsp[len(rbsp)-1] == 0 {
-		// cabac_zero_words case; cannot occur after rbsp_trailing_bits but
-		// the clause requires it for completeness.
+	if zeros >= 2 {
+		// RBSP ending in a cabac_zero_word (00 00): a final 03 is appended.
+		// Cannot occur after rbsp_trailing_bits; kept for completeness.
 		out = append(out, 3)
 	}
 	return out
